@@ -449,8 +449,8 @@ func (r *Rerunner) run() {
 
 func (r *Rerunner) Stop() {
 	// Call cancelCtx before acquiring the lock as the lock might be held for a long time during a running computation.
-	r.cancelCtx()
 	verifEv("rr.cancel", r, nil)
+	r.cancelCtx()
 
 	r.mu.Lock()
 	r.stop = true
